@@ -184,4 +184,42 @@ class StrMeasure(Part):
             ctx.nontrivial = True
 
 
-PARTS = [Measure(), TextMeasure(), StrMeasure()]
+
+class MarkdownLists(Part):
+    name = "markdown-lists"
+    rule = ("Markdown documents consisting of one ordered or bullet list (1-5 short items, ordered lists starting at 0 .. 99999) rendered with 12..100 cells available: the measurement "
+            "is within bounds and no rendered line is wider than what was available (a Markdown reports (0, available)); non-trivial = an ordered list whose last number has more "
+            "digits than its item count")
+    budget = {"quick": (4, 200), "thorough": (16, 2000)}
+
+    def strategy(self, tier):
+        item = st.lists(st.sampled_from(["What", "a", "great", "season", "x", "alpha beta", "漢字"]), min_size=1, max_size=6).map(" ".join)
+        return st.builds(lambda start, items, w: {"start": start, "items": items, "W": w}, st.one_of(st.none(), st.sampled_from([0, 1, 9, 98, 99, 250, 999, 1986, 99999]), st.integers(0, 1200)),
+                         st.lists(item, min_size=1, max_size=5), st.integers(12, 100))
+
+    def check(self, spec, ctx):
+        from rich.console import Console
+        from rich.markdown import Markdown
+        from rich.measure import Measurement
+
+        if spec["start"] is None:
+            src = "\n".join("- " + x for x in spec["items"])
+        else:
+            src = "\n".join("%d. %s" % (spec["start"] + i, x) for i, x in enumerate(spec["items"]))
+        W = spec["W"]
+        con = sut(Console, file=io.StringIO(), width=200, color_system=None, force_terminal=False, _environ={})
+        md = sut(Markdown, src)
+        m = sut(Measurement.get, con, md, W)
+        if not (0 <= m.minimum <= m.maximum <= W):
+            ctx.violation("bounds", "C09/bounds/markdown", "Measurement.get(Markdown(%r), %d) = %r" % (src, W, tuple(m)))
+            return
+        _, lines = C01.render_lines(sut(Markdown, src), m.maximum)
+        for i, ln in enumerate(lines):
+            if OC.width(ln) > m.maximum:
+                ctx.violation("render-at-maximum", "C09/render/markdown-list", "Markdown(%r) measured %r; rendered at %d, line %d is %d cells: %r" % (src, tuple(m), m.maximum, i, OC.width(ln), ln))
+                return
+        if spec["start"] is not None and len(str(spec["start"] + len(spec["items"]))) > len(str(len(spec["items"]) + 1)):
+            ctx.nontrivial = True
+
+
+PARTS = [Measure(), TextMeasure(), StrMeasure(), MarkdownLists()]
